@@ -6,8 +6,8 @@
     loaded before or after the first record (lower / upper case AccessoryPairingID), its description, the
     config-change tasks queued FIFO on its connection, an accessory that answers, answers with an error, with
     garbage, or closes the connection, list_accessories, remove_pairing and shutdown at any point, re-pairing
-    after removal; honest c# (= database version) and arbitrary c# (decrease / wrap).  Invariants P1..P9 of the
-    module, exhaustive for small domains.  With NormalisedRemove = FALSE (remove_pairing popping the pairing
+    after removal, restore_accessories_state; honest c# (= database version) and arbitrary c# (decrease /
+    wrap).  Invariants P1..P10 of the module, exhaustive for small domains.  With NormalisedRemove = FALSE (remove_pairing popping the pairing
     under pairing.id) TLC must refute NoUpdatesWhileRemoving (non-vacuity; it is the defect found in the tree).
 (B) spec -> code: `tlc -simulate` behaviours of the module are turned into stimulus schedules and run on the
     real IpController + Controller + IpPairing + SecureHomeKitConnection + characteristic cache (memory and
@@ -16,6 +16,12 @@
 (C) code -> spec: every execution of (B) and seeded random schedules are logged (stimulus, what became visible
     while the loop settled, what is visible afterwards) and validated by TLC against ZcLifecycle_Trace: an
     execution is accepted only if every observation is the one the specification computes.
+(D) records for pairings that were shut down (IP and CoAP flavour, with / without a description seen before,
+    direct and through the browser callback + timer) are logged in the vocabulary of C19's Discovery_Trace and
+    validated there (CallbackNeverRaises, NoLostWakeup).
+
+./check EXTZC --replay replays/EXTZC-<tier>-<n>.json re-executes the recorded stimulus list and explains the
+first rejected event (observed vs. what the specification computes).
 """
 from __future__ import annotations
 
@@ -33,7 +39,7 @@ from harness import tracecheck
 from harness.common import SPEC, MachineryError
 
 AREA = os.path.join(SPEC, "discovery")
-KEEP = ("ev", "r", "kind", "v", "out", "obs")
+KEEP = ("ev", "r", "kind", "v", "c", "out", "obs")
 CBASES = (0, 0, 100, 65000)
 
 _HDR = re.compile(r"^\\\* <(\w+)(?:\((.*?)\))? line \d+", re.M)
@@ -60,6 +66,9 @@ def _parse_behaviour(path):
             steps.append(("answer", par.strip().strip('"')))
         elif name in ("SimDb", "DbChange"):
             steps.append(("db", st["accv"]))
+        elif name == "UserRestore":
+            c, v = (int(x) for x in par.split(","))
+            steps.append(("restore", c, v))
         elif name in _STEP:
             steps.append((_STEP[name],))
         else:
@@ -106,7 +115,7 @@ def _random_schedule(args):
         cur = None
         style = rng.choice(["mixed", "mixed", "churn", "cfg", "removal"])
         weights = {"announce": 6, "ptr": 1, "remove": 2, "tick": 6, "resolved": 2, "load": 3, "list": 2, "rmv": 1,
-                   "shutdown": 0.4, "answer": 6, "db": 2}
+                   "shutdown": 0.4, "answer": 6, "db": 2, "restore": 0.7, "other": 1.5}
         if style == "churn":
             weights.update(announce=9, remove=4, ptr=3, tick=9)
         elif style == "cfg":
@@ -119,7 +128,8 @@ def _random_schedule(args):
                 ok = {"announce": True, "ptr": not known, "remove": known, "tick": True, "resolved": bool(w.gates),
                       "load": loads < 3 and (loads == 0 or rm_state == "done"), "list": loads > 0,
                       "rmv": loads > 0 and alias, "shutdown": loads > 0 and not shut, "answer": w._held() is not None,
-                      "db": (w.accv < 6) if honest else True}[op]
+                      "db": (w.accv < 6) if honest else True, "other": True,
+                      "restore": loads > 0 and not shut and rm_state == "no" and w._held() is None}[op]
                 if ok:
                     ops.append((op, wt))
             r = rng.random() * sum(x[1] for x in ops)
@@ -148,6 +158,16 @@ def _random_schedule(args):
                 e = w.apply(("answer", rng.choice(["ok", "ok", "ok", "ok", "err", "garbage", "close"])))
             elif op == "db":
                 e = w.apply(("db", w.accv + 1 if honest else rng.choice([v for v in range(1, 7) if v != w.accv])))
+            elif op == "other":
+                e = w.apply(("other", rng.choice([0, 1, 2, 3]) if w.known2 else rng.choice([1, 2, 3])))
+            elif op == "restore":
+                seen = w.events[-1]["obs"]["pdesc"] if w.events else []
+                lo = seen[0]["c"] if seen else 1
+                v = rng.randrange(1, w.accv + 1)
+                c = v if honest else rng.randrange(max(1, lo), 7)
+                if c < lo:
+                    continue
+                e = w.apply(("restore", c, v))
             else:
                 e = w.apply((op,))
                 if op == "ptr":
@@ -160,7 +180,7 @@ def _random_schedule(args):
                     alias, rm_state = False, "pending"
                 elif op == "shutdown":
                     shut = True
-            if any(o[0] == "ret_rm" for o in e["out"]):
+            if e is not None and any(o[0] == "ret_rm" for o in e["out"]):
                 rm_state, shut = "done", True
         w.drain()
         return w.record(rid, "random")
@@ -168,6 +188,35 @@ def _random_schedule(args):
         w.close()
         if tmp:
             shutil.rmtree(tmp, ignore_errors=True)
+
+
+# ------------------------------------------------------------------ shut-down pairings on every mDNS transport
+def _shutdown_scenario(args):
+    """a pairing that was shut down (before / after it had a description) stays in the controller's `pairings`
+    (pairing.shutdown() does not unload it); records for its id keep arriving.  Logged in the vocabulary of
+    spec/discovery/Discovery_Trace.tla (C19): the callback must not raise and waiters must be woken."""
+    rid, tr, seen_before, via = args
+    from harness import c19_driver as C
+    cls = {"kind": "mdns", "idc": "upper", "kc": "lower", "addrs": ["v4"], "c": 2, "s": 1, "sf": 0, "ff": 0, "ci": 5}
+    w = C.World({"x": "nocache", "y": "cached"}, tag=rid)
+    try:
+        for idl in ("x", "y"):
+            if seen_before:
+                w.adv(tr, idl, dict(cls), via=via)
+                w.run_to(w.now_ms() + 1000)
+            p = w.ctl[tr].pairings[C.IDS[idl]]
+            w.loop.run_until_complete(p.shutdown())
+            w.settle()
+            if not seen_before:
+                w.start("w1" if idl == "x" else "w2", tr, idl, 5000)
+            w.adv(tr, idl, dict(cls, addrs=["v4", "v6"], s=2), via=via)       # endpoint and s# differ
+            w.run_to(w.now_ms() + 1000)
+            w.adv(tr, idl, dict(cls, addrs=["v6"], c=3), via=via)
+            w.run_to(w.now_ms() + 1000)
+        w.finish()
+        return w.record(rid, "shutdown-pairing")
+    finally:
+        w.close()
 
 
 # ------------------------------------------------------------------ trace validation
@@ -198,51 +247,73 @@ def _explain(full, rej):
     if ev is None:
         return head + "the trace could not be consumed"
     exp = _expected(rej.get("settled_state"))
-    what = {k: ev[k] for k in ("ev", "r", "kind", "v") if k in ev}
+    what = {k: ev[k] for k in ("ev", "r", "kind", "v", "c", "what") if k in ev}
     if exp is None:
         st = rej.get("last_state") or {}
         return head + (f"event #{pos} {json.dumps(what)} is not a step the specification can take in its state "
                        f"(queue {st.get('q')}, timer {st.get('timer')}, resolving {st.get('resolving')}, shut {st.get('shut')}, rm {st.get('rm')})")
     diffs = []
-    if sorted(ev["out"]) != exp["out"]:
+    if sorted({tuple(o) for o in ev["out"]}) != sorted(tuple(o) for o in exp["out"]):
         diffs.append(f"visible effects {sorted(ev['out'])} but the specification has {exp['out']}")
     for k, v in exp["obs"].items():
         if ev["obs"].get(k) != v:
             diffs.append(f"{k} = {json.dumps(ev['obs'].get(k))} but the specification has {json.dumps(v)}")
-    if not diffs and len(ev["out"]) != len({tuple(o) for o in ev["out"]}):
+    if not diffs and len([o for o in ev["out"] if o[0] != "ret_list"]) != len({tuple(o) for o in ev["out"] if o[0] != "ret_list"}):
         diffs.append(f"an effect occurred twice: {ev['out']}")
     return head + f"after event #{pos} {json.dumps(what)}: " + "; ".join(diffs or ["observation differs"])
 
 
-def _validate(ctx, recs, label):
-    rej = tracecheck.validate(ctx, "discovery/ZcLifecycle_Trace", "ZcLifecycle_Trace.cfg", [_trim(r) for r in recs],
-                              label=label, timeout=1500, settled_inv="DebugExpected")
-    out = []
-    for r in rej:
-        if r["index"] is None:
-            raise MachineryError("trace validation reported a violation without a trace id")
-        out.append((recs[r["index"]], r))
-    return out
-
-
-def _kind(full, rej):
-    ev = rej["event"] or {}
-    exp = _expected(rej.get("settled_state")) or {"obs": {}, "out": None}
-    diff = tuple(k for k, v in exp["obs"].items() if ev.get("obs", {}).get(k) != v)
-    return (ev.get("ev"), diff, exp["out"] is not None and sorted(ev.get("out", [])) != exp["out"])
+def _validate(ctx, recs, label, tmp):
+    """batch validation; returns [(full record, rejection dict)] - details (the specification's state before the
+    rejected event and after taking its step) are computed for two executions per kind of stimulus only"""
+    path = os.path.join(AREA, "ZcLifecycle_Trace.tla")
+    cfgp = os.path.join(AREA, "ZcLifecycle_Trace.cfg")
+    bad = []
+    chunk = 4000
+    for off in range(0, len(recs), chunk):
+        part = recs[off:off + chunk]
+        tf = os.path.join(tmp, f"trace_{off}.ndjson")
+        with open(tf, "w") as f:
+            for r in part:
+                f.write(json.dumps(_trim(r)) + "\n")
+        res = ctx.tlc("discovery/ZcLifecycle_Trace", "ZcLifecycle_Trace.cfg", env={"TRACE_FILE": tf, "DBG_L": "0"}, workers=1,
+                      dfs_queue=True, coverage=False, require_cover=False, expect_violation=True, timeout=1500,
+                      label=f"{label} ({len(part)} executions)")
+        os.unlink(tf)
+        if not res.ok:
+            raise MachineryError(f"trace validation failed: {res.violation['kind']} {res.violation['name']}\n{res.stdout[-3000:]}")
+        rej = [(int(a), int(b)) for a, b in re.findall(r'<<"REJECTED", (\d+), (\d+)>>', res.stdout)]
+        for tid, maxl in rej:
+            full = part[tid - 1]
+            ev = full["events"][maxl - 1] if 0 < maxl <= len(full["events"]) else None
+            bad.append((full, {"maxl": maxl, "event": ev, "last_state": None, "settled_state": None, "invariant": None}))
+        ctx.trace_ok(len(part) - len(rej))
+    per_kind = {}
+    for full, rej in bad:
+        ev = rej["event"] or {}
+        k = (ev.get("ev"), ev.get("kind"))
+        if per_kind.setdefault(k, 0) < 2 and sum(per_kind.values()) < 12:
+            per_kind[k] += 1
+            rej["detail"] = True
+            rej["settled_state"] = tracecheck._last_state(path, cfgp, _trim(full), rej["maxl"], "DebugExpected")
+            if rej["settled_state"] is None:
+                rej["last_state"] = tracecheck._last_state(path, cfgp, _trim(full), rej["maxl"])
+    return bad
 
 
 def _report(ctx, bad):
-    # one report per kind of rejection first (ordering only; the verdict is TLC's)
-    seen, first, rest = set(), [], []
-    for item in bad:
-        k = _kind(*item) if item[1].get("settled_state") or item[1].get("last_state") else ("?",)
-        (rest if k in seen else first).append(item)
-        seen.add(k)
-    for full, rej in first + rest:
-        ctx.violation(_explain(full, rej),
-                      {"kind": "trace", "params": {k: full[k] for k in ("idcase", "honest", "cache0", "accv0", "tag", "cache_kind", "cbase")},
-                       "steps": full["steps"], "position": rej["maxl"], "event": rej["event"], "id": full["id"], "src": full["src"]})
+    # executions with details first (ordering only; the verdict is TLC's)
+    bad = sorted(bad, key=lambda it: not it[1].get("detail"))
+    for full, rej in bad:
+        if rej.get("detail"):
+            msg = _explain(full, rej)
+        else:
+            ev = rej["event"] or {}
+            what = {k: ev[k] for k in ("ev", "r", "kind", "v", "c", "what") if k in ev}
+            msg = (f"execution {full['id']} ({full['src']}; id case {full['idcase']}, honest c# {full['honest']}): event #{rej['maxl']} "
+                   f"{json.dumps(what)} is rejected by ZcLifecycle_Trace (out {ev.get('out')}); ./check EXTZC --replay <this file> explains it")
+        ctx.violation(msg, {"kind": "trace", "params": {k: full[k] for k in ("idcase", "honest", "cache0", "accv0", "tag", "cache_kind", "cbase")},
+                            "steps": full["steps"], "position": rej["maxl"], "event": rej["event"], "id": full["id"], "src": full["src"]})
 
 
 def _replay(ctx):
@@ -256,7 +327,11 @@ def _replay(ctx):
     for e in rec["events"]:
         print("replay:", json.dumps({k: v for k, v in e.items() if k != "t"})[:400])
     ctx.case(json.dumps(rec["events"], sort_keys=True))
-    _report(ctx, _validate(ctx, [rec], "replayed execution"))
+    tmp2 = tempfile.mkdtemp(prefix="extzc_")
+    try:
+        _report(ctx, _validate(ctx, [rec], "replayed execution", tmp2))
+    finally:
+        shutil.rmtree(tmp2, ignore_errors=True)
 
 
 def run(ctx):
@@ -289,7 +364,7 @@ def run(ctx):
         ctx.tlc("discovery/ZcLifecycle", "ZcLifecycle_MCn.cfg", label="arbitrary c# (decrease / wrap), stale cache labels", timeout=900, **inv_only)
         ctx.tlc("discovery/ZcLifecycle", "ZcLifecycle_MC2.cfg", label="re-pairing after removal, port change, garbage answers", timeout=900, **inv_only)
         if ctx.thorough:
-            ctx.tlc("discovery/ZcLifecycle", "ZcLifecycle_MC.cfg", label="honest and arbitrary c# together, 4 initial caches", timeout=2400, **inv_only)
+            ctx.tlc("discovery/ZcLifecycle", "ZcLifecycle_MC.cfg", label="honest and arbitrary c# together, both id cases, 3 initial caches", timeout=2400, **inv_only)
         res = ctx.tlc("discovery/ZcLifecycle", "ZcLifecycle_neg.cfg", expect_violation=True, require_cover=False, coverage=False,
                       label="non-vacuity: remove_pairing popping pairing.id (tree before the fix) must be refuted", timeout=600)
         if res.ok or res.violation["name"] not in ("NoUpdatesWhileRemoving", "RemovedMeansGone"):
@@ -297,7 +372,7 @@ def run(ctx):
         # ---------------- (B) behaviours
         d = os.path.join(tmp, "sim")
         os.makedirs(d)
-        ctx.tlc("discovery/ZcLifecycle", "ZcLifecycle_sim.cfg", simulate=f"file={d}/b,num={ctx.pick(400, 4000)}", depth=ctx.pick(30, 45),
+        ctx.tlc("discovery/ZcLifecycle", "ZcLifecycle_sim.cfg", simulate=f"file={d}/b,num={ctx.pick(400, 3500)}", depth=ctx.pick(30, 45),
                 seed=ctx.seed % 1000003, workers=1, label="simulate: behaviours for replay", timeout=900, **inv_only)
         jobs_b = []
         for i, f in enumerate(sorted(glob.glob(d + "/b_*"))):
@@ -306,7 +381,7 @@ def run(ctx):
         shutil.rmtree(d, ignore_errors=True)
         if not jobs_b:
             raise MachineryError("no behaviours produced by tlc -simulate")
-        nrand = ctx.pick(800, 12000)
+        nrand = ctx.pick(800, 10000)
         jobs_r = [(ctx.seed * 1000003 + i, f"rnd{i}-{ctx.seed}", i) for i in range(nrand)]
         with mp.get_context("fork").Pool(min(16, os.cpu_count() or 4)) as pool:
             recs = pool.map(_run_behaviour, jobs_b, chunksize=8)
@@ -320,12 +395,25 @@ def run(ctx):
         ctx.notes["reconnects_after_close"] = sum(1 for e in evs if e["ev"] == "answer" and e.get("kind") == "close" and any(o[0] == "tcp" for o in e["out"]))
         ctx.notes["removals"] = sum(1 for e in evs for o in e["out"] if o[0] == "ret_rm")
         ctx.notes["file_cache_executions"] = sum(1 for r in recs if r["cache_kind"] == "file")
+        ctx.notes["stimuli"] = {k: sum(1 for e in evs if e["ev"] == k) for k in sorted({e["ev"] for e in evs})}
         ctx.notes["callback_raised"] = sum(1 for e in evs for o in e["out"] if o[0] == "raised")
         for r in recs:
             nontrivial = any(e["obs"]["disc"] for e in r["events"]) and any(e["ev"] == "load" for e in r["events"])
             ctx.case(json.dumps([{k: v for k, v in e.items() if k in KEEP} for e in r["events"]], sort_keys=True) if nontrivial else None)
         # ---------------- (C) verdict
-        bad = _validate(ctx, recs, "trace validation ZcLifecycle_Trace")
+        bad = _validate(ctx, recs, "trace validation ZcLifecycle_Trace", tmp)
+        # ---------------- (D) records for shut-down pairings, IP and CoAP flavour, against C19's Discovery_Trace
+        from harness.props import c19 as P19
+        jobs_s = [(f"sd-{tr}-{int(sb)}-{via}", tr, sb, via) for tr in ("ip", "coap") for sb in (False, True) for via in ("direct", "browser")]
+        with mp.get_context("fork").Pool(min(8, os.cpu_count() or 4)) as pool:
+            srecs = pool.map(_shutdown_scenario, jobs_s, chunksize=1)
+        ctx.notes["shutdown_pairing_scenarios"] = len(srecs)
+        for r in srecs:
+            ctx.case(json.dumps(r["events"], sort_keys=True))
+        for r, pos, prop, *extra in P19._validate(ctx, tmp, srecs, "records for shut-down pairings (Discovery_Trace)"):
+            ev = r["events"][pos - 1] if 0 < pos <= len(r["events"]) else {}
+            ctx.violation(f"shut-down pairing, {r['id']}: " + P19._explain(r, pos, prop) + (f" [{ev.get('exc')}]" if ev.get("exc") else ""),
+                          {"kind": "shutdown-scenario", "id": r["id"], "position": pos, "events": r["events"]})
         _report(ctx, bad)
         bad_ids = {b[0]["id"] for b in bad}
         for src in ("behaviour", "random"):
